@@ -186,6 +186,34 @@ fn r1(t: &mut Tape, prog: &mut Prog, into: bool) -> Option<u8> {
     if sorted_prefix && !t.chance(1, 2) {
         return None;
     }
+    // a sort key of the prefix that is the result of an aggregation (finding
+    // C06-sorted-let-aggregate-key-recomputed)
+    let agg_key = {
+        let mut aliases: Vec<String> = vec![];
+        fn collect(steps: &[Step], out: &mut Vec<String>) {
+            for s in steps {
+                match s {
+                    Step::Aggregate(items) => out.extend(items.iter().filter_map(|i| i.alias.clone())),
+                    Step::Group { inner, .. } => collect(inner, out),
+                    _ => {}
+                }
+            }
+        }
+        collect(&prog.main.steps[..k], &mut aliases);
+        let mut hit = false;
+        if let Some(Step::Sort(keys)) = prog.main.steps[..k].iter().rev().find(|s| matches!(s, Step::Sort(_))) {
+            for key in keys {
+                key.expr.walk(&mut |x| {
+                    if let Expr::Col(c) = x {
+                        if aliases.iter().any(|a| c.text == *a || c.text.ends_with(&format!(".{a}"))) {
+                            hit = true;
+                        }
+                    }
+                });
+            }
+        }
+        hit
+    };
     let rest: Vec<Step> = prog.main.steps.split_off(k);
     let prefix = Pipeline {
         source: prog.main.source.clone(),
@@ -216,7 +244,7 @@ fn r1(t: &mut Tape, prog: &mut Prog, into: bool) -> Option<u8> {
         },
         steps: rest,
     };
-    Some(if !sorted_prefix { 0 } else if window_after { 2 } else { 1 })
+    Some(if !sorted_prefix { 0 } else if agg_key { 3 } else if window_after { 2 } else { 1 })
 }
 
 /// R3: replace an expression by a call to a user function whose body is that expression
@@ -356,8 +384,8 @@ pub fn gen_case(t: &mut Tape) -> Case {
         let done = match t.choose(6) {
             0 => r4(t, &mut p.main.steps).then_some("R4 filter split/merge"),
             1 => r5(t, &mut p.main.steps).then_some("R5 identity filter"),
-            2 => r1(t, &mut p, false).map(|s| ["R1 let extraction", "R1 let extraction (sorted prefix)", "R1 let extraction (sorted prefix, window after)"][s as usize]),
-            3 => r1(t, &mut p, true).map(|s| ["R2 into extraction", "R2 into extraction (sorted prefix)", "R2 into extraction (sorted prefix, window after)"][s as usize]),
+            2 => r1(t, &mut p, false).map(|s| ["R1 let extraction", "R1 let extraction (sorted prefix)", "R1 let extraction (sorted prefix, window after)", "R1 let extraction (sorted prefix, aggregate key)"][s as usize]),
+            3 => r1(t, &mut p, true).map(|s| ["R2 into extraction", "R2 into extraction (sorted prefix)", "R2 into extraction (sorted prefix, window after)", "R2 into extraction (sorted prefix, aggregate key)"][s as usize]),
             4 => r3(t, &mut p).then_some("R3 function abstraction"),
             _ => r6(&mut p).then_some("R6 move into module"),
         };
@@ -426,6 +454,9 @@ pub fn check(c: &Case, _known: &Known) -> Outcome {
             let extracted = c.rewrites.iter().any(|r| r.starts_with("R1") || r.starts_with("R2"));
             if e.msg().contains("syntax error") && sql2.contains(" OFFSET ") && _known.is_open("C07-offset-without-limit") {
                 o.verdict = Verdict::Known("C07-offset-without-limit".into(), "an open-ended take separated from its bounding take".into());
+            } else if extracted && src1.contains("append") && e.msg().contains("do not have the same number of result columns") && _known.is_open("C01-append-pruning") {
+                // the extraction makes the top input of an append a let-table
+                o.verdict = Verdict::Known("C01-append-pruning".into(), "let-extraction of the top input of an append".into());
             } else if c.rewrites.iter().any(|r| r.contains("window after)"))
                 && e.msg().contains("requires one ORDER BY")
                 && _known.is_open("C06-let-sort-not-applied-to-windows")
@@ -474,6 +505,18 @@ pub fn check(c: &Case, _known: &Known) -> Outcome {
         return out;
     }
     let differs = r1.cols.len() != r2.cols.len() || rows_key(&r1.cols, &r1.rows) != rows_key(&r2.cols, &r2.rows);
+    let extracted = c.rewrites.iter().any(|r| r.starts_with("R1") || r.starts_with("R2"));
+    if differs && extracted && src1.contains("append") && _known.is_open("C01-append-pruning") {
+        out.verdict = Verdict::Known("C01-append-pruning".into(), "let-extraction of the top input of an append".into());
+        return out;
+    }
+    if differs && c.rewrites.iter().any(|r| r.contains("aggregate key)")) && _known.is_open("C06-sorted-let-aggregate-key-recomputed") {
+        out.verdict = Verdict::Known(
+            "C06-sorted-let-aggregate-key-recomputed".into(),
+            "let-extraction of a prefix sorted by an aggregation result".into(),
+        );
+        return out;
+    }
     if differs && c.rewrites.iter().any(|r| r.contains("window after)")) && _known.is_open("C06-let-sort-not-applied-to-windows") {
         out.verdict = Verdict::Known(
             "C06-let-sort-not-applied-to-windows".into(),
